@@ -597,11 +597,12 @@ def check_magnitude_objective(rng, rep, methods):
         for _ in range(4):
             pt = np.array([x * rng.choice([0.25, 0.5, 1.0, 1.5, 2.0]) for x in xs])
             fv, gv, hv = f(pt), g(pt), h(pt)
-            if abs(kw["fun"](pt) - fv) > 1e-9 * (1 + abs(fv)):
+            if abs(kw["fun"](pt) - fv) > 1e-9 * float(np.sum(np.abs(ca * pt ** k) + np.abs(ba * pt))):
                 bad = ("fun", float(kw["fun"](pt)), fv)
-            elif kw.get("jac") is not None and not np.allclose(kw["jac"](pt), gv, rtol=1e-9, atol=1e-12 * (1 + np.abs(gv).max())):
+            elif kw.get("jac") is not None and not np.all(np.abs(np.asarray(kw["jac"](pt)) - gv)
+                                                          <= 1e-9 * (np.abs(k * ca * pt ** (k - 1)) + np.abs(ba))):  # scale of the terms that cancel
                 bad = ("jac", np.asarray(kw["jac"](pt)).tolist(), gv.tolist())
-            elif kw.get("hess") is not None and not np.allclose(kw["hess"](pt), hv, rtol=1e-9, atol=1e-12 * (1 + np.abs(hv).max())):
+            elif kw.get("hess") is not None and not np.allclose(kw["hess"](pt), hv, rtol=1e-9, atol=1e-9 * np.abs(hv).max()):
                 bad = ("hess", np.asarray(kw["hess"](pt)).tolist(), hv.tolist())
             if bad:
                 rep.oracle_failures.append({"what": f"the `{bad[0]}` callable handed to SciPy differs from the hand-written "
